@@ -158,7 +158,7 @@ def frame_program(draw):
     ops = []
     t0 = strip_distinct(T)
     for _ in range(b.int(1, 4)):
-        op = b.pick(["store", "store", "copy-mutate", "default", "via-fn", "nil-or-variant", "snapshot", "whole-via-fn"])
+        op = b.pick(["store", "store", "copy-mutate", "default", "via-fn", "nil-or-variant", "snapshot", "whole-via-fn", "permute-self", "permute-self"])
         if op == "whole-via-fn" and kind not in ("struct", "pair"):
             op = "via-fn"
         ops.append(op)
@@ -181,6 +181,23 @@ def frame_program(draw):
             body.append(Assign(Var(c, T), None, b.value(T)))
             body += dump()
             body.append(Assign(target, None, b.value(T)))
+        elif op == "permute-self":
+            # the new value is a literal that reads the old value of the same target: `t = S.{ a = t.b, b = t.a }`
+            if isinstance(t0, Array) and t0.n >= 2:
+                perm = list(b.draw(st.permutations(list(range(t0.n)))))
+                body.append(Assign(target, None, ArrLit(t0, [Index(target, Lit(USIZE, j), t0.elem) for j in perm])))
+            elif isinstance(t0, Struct) and len(t0.fields) >= 2:
+                groups = {}
+                for fn_, ft in t0.fields:
+                    groups.setdefault(ft.src(), []).append(fn_)
+                src_of_field = {}
+                for names in groups.values():
+                    perm = list(b.draw(st.permutations(names)))
+                    for dst, src_ in zip(names, perm):
+                        src_of_field[dst] = src_
+                body.append(Assign(target, None, StructLit(t0, [(fn_, Field(target, src_of_field[fn_], ft)) for fn_, ft in t0.fields])))
+            else:
+                body.append(Assign(target, None, b.value(T)))
         elif op == "snapshot":
             # an immutable binding is a copy as well: later writes to the source must not show through it
             c = b.fresh("snap")
@@ -381,7 +398,7 @@ def replay_payload(payload, scratch):
 
 RULE = ("frames = target slot of an aggregate/sum type (enum with payloads and custom discriminants, optional, error union, struct, array) between guards holding "
         "sentinel bytes (struct fields, array neighbours, adjacent locals) + 1-4 write operations (store of a literal, variant/nil/error store, copy-then-mutate, "
-        "default-initialised value, by-value pass + callee mutation + return); plus a systematic sweep passing and returning structs of every size 1..64 bytes "
+        "default-initialised value, by-value pass + callee mutation + return, a literal that permutes the target's own elements / same-typed fields); plus a systematic sweep passing and returning structs of every size 1..64 bytes "
         "(5 field shapes) by value, and every (guard type x sum-typed field x field order) small struct passed / returned in registers. Every case writes an aggregate/sum target with a guard adjacent after it, so every case is non-trivial; distinct by program text.")
 
 
